@@ -110,6 +110,17 @@ Fixpoint expr_eqb (a b : expr) : bool :=
   | _, _ => false
   end.
 
+(* all nonterminal references of e are below the bound B (used by the run-time checks of Expand) *)
+(* all nonterminal references of e are below the bound B *)
+Fixpoint bounded (B : Z) (e : expr) : bool :=
+  match e with
+  | ERef s _ => s <? B
+  | EOpt s | EAssign _ s | EAppend _ s | EArrow _ _ s | EPrec _ s | ECond _ s => bounded B s
+  | EChoice l | ESeq l => forallb (bounded B) l
+  | EList _ el sep => bounded B el && match sep with None => true | Some s => bounded B s end
+  | _ => true
+  end.
+
 (* ---- decimal ---- *)
 Fixpoint itoa_go (fuel : nat) (n : Z) (acc : bytes) : bytes :=
   match fuel with
